@@ -303,6 +303,36 @@ fn sweep_new(cyc: &Cycle, rec: &Recorder) -> Tally {
             }
         }
     }
+    // every year -2100..=2500 (and blocks at both ends of the i32 range) at the leap-sensitive dates
+    let mut years: Vec<i32> = (-2100..=2500).collect();
+    years.extend((0..450).map(|k| i32::MIN + k));
+    years.extend((0..450).map(|k| i32::MAX - k));
+    for y in years {
+        for (mo, d) in [(2u8, 28u8), (2, 29), (2, 30), (3, 1), (4, 30), (4, 31), (12, 31)] {
+            for off in [0i32, 3600, -86399] {
+                tl.evals += 1;
+                let ltt = LocalTimeType::with_ut_offset(off).unwrap();
+                let valid = cyc.valid_date(y as i64, mo as i64, d as i64);
+                let case = json!({"kind":"new","y":y,"mo":mo,"d":d,"h":12,"mi":30,"s":30,"ns":42,"off":off});
+                match guard(|| DateTime::new(y, mo, d, 12, 30, 30, 42, ltt)) {
+                    Err(m) => rec.violation("new", case, json!("no panic"), json!(m)),
+                    Ok(got) => {
+                        let u = if valid { cyc.timegm(y as i64, mo, d, 12, 30, 30) as i128 - off as i128 } else { 0 };
+                        match got {
+                            Ok(dt) => {
+                                if !(valid && in_range(u) && dt.unix_time() as i128 == u && dt_invariant(cyc, &dt).is_ok()) {
+                                    rec.violation("new", case, json!({"valid_date": valid, "unix_time": u.to_string()}), json!(format!("{dt:?}")));
+                                }
+                            }
+                            Err(TzError::DateTime(_)) if !valid => tl.nontrivial += 1,
+                            Err(TzError::OutOfRange) if valid && !in_range(u) => tl.nontrivial += 1,
+                            Err(e) => rec.violation("new", case, json!({"valid_date": valid}), json!(err_name(&e))),
+                        }
+                    }
+                }
+            }
+        }
+    }
     rec.sub("new_refusals", json!({"evaluations": tl.evals, "refused_or_out_of_range": tl.nontrivial}));
     tl
 }
